@@ -51,10 +51,12 @@ def _drop_delete(evs):
 def check(run):
     run.build()
     from vlib import Inconclusive
-    run.tlc_mc("DiffMergeMC", "DiffMergeMC.cfg", label="alg/doubleWalkDiff merge loop satisfies N1 N2 N4 N6 on all 20736 (old destination, source) pairs over names a, a-b")
-    r = run.tlc_mc("DiffMergeMC", "DiffMergeMC_nosep.cfg", label="sanity: rmdir register without separator must be rejected", expect_error=True)
-    if "is violated" not in r["out"]:
-        raise Inconclusive("DiffMergeMC sanity configuration was not rejected: the model is vacuous")
+    run.tlc_mc("DiffMergeMC", "DiffMergeMC.cfg", label="alg/doubleWalkDiff merge loop satisfies N1 N1fs N2 N4 N6 on all 28561 (old destination, source) pairs over names a, a-b (kinds: two files, directory, symlink to the sibling)")
+    for cfg, inv, what in (("DiffMergeMC_nosep.cfg", "N1", "rmdir register without separator must be rejected"),
+                           ("DiffMergeMC_rmdirfile.cfg", "N1fs", "rmdir register armed only for file replacements must delete through the new symlink")):
+        r = run.tlc_mc("DiffMergeMC", cfg, label="sanity: " + what, expect_error=True)
+        if "Invariant %s is violated" % inv not in r["out"]:
+            raise Inconclusive("DiffMergeMC sanity configuration %s was not rejected: the model is vacuous" % cfg)
     t1, _ = run.drive("sync", name="sync-hist", extra=["-what", "hist"])
     t2, _ = run.drive("sync", name="sync-pairs")
     fails = []
